@@ -6,7 +6,10 @@
 //! the pool can reuse it. The head of an https/wss request must never be readable in the raw bytes of
 //! any connection.
 //!
-//! line: `tlsp <host> <port|-> ; <scheme> ; <scheme> ; …`     (requests are sent one after the other)
+//! line: `tlsp <host> <port|-> [<builder order 0-5>] ; <scheme> ; <scheme> ; …`     (requests are sent one after the other)
+//!   builder order: where `with_tls` comes among the builder calls - last (0), first (1), first and followed by pool, transport,
+//!   protocol, redirect policy, timeout (2), between transport and protocol (3), on `Builder::default()` before the transport (4),
+//!   before `with_protocol` and the transport (5)
 //! obs : `<result>.<leak 0|1> … ; <wire of connection 0> <wire of connection 1> …`
 //!   result: ok | err-<class> | panic;  wire: tls | ascii | other | none
 use crate::rng::Rng;
@@ -26,7 +29,7 @@ pub fn gen(r: &mut Rng, _i: u64) -> String {
     let n = r.range(2, 5);
     let port = *r.pick(&["-", "-", "8443", "443", "80", "8080"]);
     let reqs: Vec<&str> = (0..n).map(|_| *r.pick(SCHEMES)).collect();
-    format!("{} {port} ; {}", r.pick(HOSTS), reqs.join(" ; "))
+    format!("{} {port} {} ; {}", r.pick(HOSTS), r.below(6), reqs.join(" ; "))
 }
 
 /// every ordered pair and triple of schemes (80 cases) on two authorities
@@ -36,6 +39,8 @@ pub fn exhaustive() -> Vec<String> {
         for a in SCHEMES { for b in SCHEMES {
             out.push(format!("tlsp {h} {p} ; {a} ; {b}"));
             for c in SCHEMES { out.push(format!("tlsp {h} {p} ; {a} ; {b} ; {c}")); }
+            // … and the pair once more for every order of the builder calls
+            for o in 1..6 { out.push(format!("tlsp {h} {p} {o} ; {a} ; {b}")); }
         } }
     }
     out
@@ -108,15 +113,25 @@ fn contains(h: &[u8], n: &[u8]) -> bool { h.windows(n.len()).any(|w| w == n) }
 pub fn run(toks: &[&str]) -> String {
     let mut parts: Vec<Vec<&str>> = vec![vec![]];
     for t in toks { if *t == ";" { parts.push(vec![]); } else { parts.last_mut().unwrap().push(*t); } }
-    if parts[0].len() != 2 || parts.len() < 2 || parts[1..].iter().any(|p| p.len() != 1) { return "bad-line".into(); }
+    if !(parts[0].len() == 2 || parts[0].len() == 3) || parts.len() < 2 || parts[1..].iter().any(|p| p.len() != 1) { return "bad-line".into(); }
+    let order = parts[0].get(2).and_then(|t| t.parse::<u64>().ok()).unwrap_or(0);
     install();
     let (host, port) = (parts[0][0].to_string(), parts[0][1].to_string());
     let schemes: Vec<String> = parts[1..].iter().map(|p| p[0].to_string()).collect();
     let rt = tokio::runtime::Builder::new_current_thread().enable_all().start_paused(true).build().unwrap();
     rt.block_on(async move {
         let raws: Raws = Default::default();
-        let client = Client::builder().with_transport(PeerPerConn(raws.clone())).with_auto_http().without_redirects()
-            .with_timeout(std::time::Duration::from_secs(5)).with_tls(client_config("-")).with_default_pool().build();
+        let t5 = std::time::Duration::from_secs(5);
+        let tr = PeerPerConn(raws.clone());
+        let client = match order {
+            1 => Client::builder().with_tls(client_config("-")).with_transport(tr).with_auto_http().without_redirects().with_timeout(t5).with_default_pool().build(),
+            2 => Client::builder().with_tls(client_config("-")).with_default_pool().with_transport(tr).with_auto_http().with_standard_redirect_policy().with_timeout(t5).build(),
+            3 => Client::builder().with_transport(tr).with_tls(client_config("-")).with_auto_http().without_redirects().with_timeout(t5).with_default_pool().build(),
+            4 => hyperdriver::client::Builder::default().with_tls(client_config("-")).with_transport(tr).with_auto_http().without_redirects().with_timeout(t5).build(),
+            5 => Client::builder().with_tls(client_config("-")).with_protocol(hyperdriver::client::conn::protocol::auto::HttpConnectionBuilder::<Body>::default()).with_transport(tr)
+                    .without_redirects().with_timeout(t5).with_default_pool().build(),
+            _ => Client::builder().with_transport(tr).with_auto_http().without_redirects().with_timeout(t5).with_tls(client_config("-")).with_default_pool().build(),
+        };
         let svc = client.into_inner();
         let mut results = vec![];
         for (i, scheme) in schemes.iter().enumerate() {
